@@ -5,6 +5,7 @@
 package ingestfam
 
 import (
+	"bytes"
 	"context"
 	"encoding/json"
 	"errors"
@@ -150,6 +151,26 @@ func targets() []pushTarget {
 		{"filenamed", func(d string) (content.Storage, func(), error) {
 			s, err := file.New(d)
 			return s, func() { s.Close() }, err
+		}, "blob.bin", nil},
+		// the name is taken by a longer file that was in the working directory before (overwriting is allowed by default)
+		{"fileover", func(d string) (content.Storage, func(), error) {
+			if err := os.WriteFile(filepath.Join(d, "blob.bin"), bytes.Repeat([]byte("z"), 40), 0o644); err != nil {
+				return nil, nil, err
+			}
+			s, err := file.New(d)
+			return s, func() { s.Close() }, err
+		}, "blob.bin", nil},
+		// a longer push under the same name was refused before (its bytes did not match its digest)
+		{"fileafterbad", func(d string) (content.Storage, func(), error) {
+			s, err := file.New(d)
+			if err != nil {
+				return nil, nil, err
+			}
+			stale := bytes.Repeat([]byte("q"), 40)
+			bad := ocispec.Descriptor{MediaType: "application/vnd.verif.blob", Digest: digest.FromString("something else"), Size: 40,
+				Annotations: map[string]string{ocispec.AnnotationTitle: "blob.bin"}}
+			s.Push(context.Background(), bad, bytes.NewReader(stale))
+			return s, func() { s.Close() }, nil
 		}, "blob.bin", nil},
 		{"fileunnamed", func(d string) (content.Storage, func(), error) {
 			s, err := file.New(d)
@@ -408,7 +429,7 @@ func TestDrive(t *testing.T) {
 	}
 	ctl := 0
 	for _, tg := range targets() {
-		if !want(tg.name) || tg.name == "limited" || tg.name == "filefallbackoci" {
+		if !want(tg.name) || tg.name == "limited" || tg.name == "filefallbackoci" || tg.name == "fileover" || tg.name == "fileafterbad" {
 			continue
 		}
 		for r := 0; r < vh.EnvInt("VH_CTL", 150); r++ {
